@@ -22,6 +22,9 @@ Token *stub_paste(Token *lhs, Token *rhs) {
   mk(&PT[k], TK_IDENT, PB[k], &E);
   return &PT[k];
 }
+// stand-in for the full macro expansion of an argument: counts its uses (identity on the tokens)
+static int npre;
+Token *stub_preprocess2(Token *tok) { npre++; return tok; }
 // a valid invocation is never diagnosed
 void error_tok(Token *tok, char *fmt, ...) { OBLIGE(0, "C09.3 ## with empty operands is valid and is not diagnosed"); ASSUME(0); }
 int nondet_int_(void);
@@ -40,6 +43,21 @@ void harness(void) {
 #if SCEN == 1
   mk(&B[n], TK_IDENT, "w", &B[n + 1]); n++;
 #endif
+#if SCEN == 3      /* x q y : no ## - every argument is fully macro-expanded before it is substituted (6.10.3.1) */
+  mk(&B[n], TK_IDENT, "x", &B[n + 1]); n++; mk(&B[n], TK_IDENT, "q", &B[n + 1]); n++; mk(&B[n], TK_IDENT, "y", &B[n + 1]); n++; ez = 0;
+  mk(&B[n], TK_EOF, "", &B[n]);
+  npt = 0; npre = 0;
+  Token *o3 = subst(&B[0], MA);
+  REACH("returns");
+  OBLIGE(npre == 2, "C09.3 a parameter that is not an operand of # or ## is replaced by its completely macro-expanded argument");
+  { Token *p = o3; _Bool ok = 1;
+    if (ex) { ok &= p->kind != TK_EOF && p->loc[0] == '1'; if (p->kind != TK_EOF) p = p->next; }
+    ok &= p->kind != TK_EOF && p->loc[0] == 'q'; if (p->kind != TK_EOF) p = p->next;
+    if (ey) { ok &= p->kind != TK_EOF && p->loc[0] == '2'; if (p->kind != TK_EOF) p = p->next; }
+    ok &= p->kind == TK_EOF;
+    OBLIGE(ok, "C09.3 substitution puts each argument's tokens in the place of its parameter");
+  }
+#else
   mk(&B[n], TK_IDENT, "x", &B[n + 1]); n++; mk(&B[n], TK_PUNCT, "##", &B[n + 1]); n++; mk(&B[n], TK_IDENT, "y", &B[n + 1]); n++;
 #if SCEN == 2
   mk(&B[n], TK_IDENT, "q", &B[n + 1]); n++; ez = 0;
@@ -47,9 +65,10 @@ void harness(void) {
   mk(&B[n], TK_PUNCT, "##", &B[n + 1]); n++; mk(&B[n], TK_IDENT, "z", &B[n + 1]); n++;
 #endif
   mk(&B[n], TK_EOF, "", &B[n]);
-  npt = 0;
+  npt = 0; npre = 0;
   Token *out = subst(&B[0], MA);
   REACH("returns");
+  OBLIGE(npre == 0, "C09.3 an operand of ## is substituted unexpanded (6.10.3.1p1)");
   // expected spelling sequence
   char want[8]; int j = 0; if (ex) want[j++] = '1'; if (ey) want[j++] = '2'; if (ez) want[j++] = '3'; want[j] = 0;
   Token *p = out; _Bool ok = 1;
@@ -62,4 +81,5 @@ void harness(void) {
 #endif
   ok &= p->kind == TK_EOF;
   OBLIGE(ok, "C09.3 ## concatenates exactly its non-empty operands into one token; empty operands vanish; tokens that are not operands of ## are left alone");
+#endif
 }
